@@ -25,6 +25,9 @@ def find_idom(adj_dict, s, t) -> list:
     
     # find arbitrary s-t path p
     p = find_path(adj_dict, s, t)
+    if p[-1] != t:
+        # t is not reachable from s (the arc lies on no source-to-sink walk), so there is no bridge
+        return None
 
     # add reversed path to G
     # and remove the original edges of the path
